@@ -1,8 +1,78 @@
-(** C12 - property theorems only. *)
-From Coq Require Import List String.
-From MX Require Import C3.Model Names.Model Names.Proofs.
+(** C12 - Names are unique per space and the visible namespace equals the
+    containers.  Property theorems only (model: Names/Model.v). *)
+From Coq Require Import List String Bool.
+From MX Require Import C3.Model Names.Model Names.ProofsInv Names.ProofsVisible.
 Import ListNotations.
 
-Theorem C12_init : all_mro_ok (graph_of init) = true /\ all_disjoint init = true.
-Proof. exact init_ok. Qed.
-Print Assumptions C12_init.
+(** after every history, in every space, a name is at most one of: a cells
+    (defined or derived), an own reference (defined or derived), a child
+    space; in the model a name is not both a space and a reference *)
+Theorem C12_unique : forall h,
+  let st := run h in
+  (forall p n, has_space st p = true ->
+     (has_cells st p n = true -> has_ref st p n = false /\ has_child st p n = false)
+     /\ (has_ref st p n = true -> has_child st p n = false))
+  /\ (forall n, has_child st [] n = true -> has_key n (st_grefs st) = false).
+Proof. exact reachable_unique. Qed.
+Print Assumptions C12_unique.
+
+(** no edit - in particular no edit of a base space - can make a name denote
+    two kinds of thing in any (sub) space: the state after ANY operation on a
+    reachable state has the property in every space *)
+Theorem C12_base_edit : forall h o,
+  let st' := snd (step (run h) o) in
+  forall d n, has_space st' d = true ->
+    (has_cells st' d n = true -> has_ref st' d n = false /\ has_child st' d n = false)
+    /\ (has_ref st' d n = true -> has_child st' d n = false).
+Proof. exact base_edit_keeps_unique. Qed.
+Print Assumptions C12_base_edit.
+
+(** dir(space) lists exactly the names of the chained namespace: the cells,
+    the references (own, special names, the model's) and the child spaces -
+    in every state, as a function of the containers *)
+Theorem C12_visible : forall st p n, In n (dir_names st p) <-> in_namespace st p n = true.
+Proof. exact visible_names. Qed.
+Print Assumptions C12_visible.
+
+Theorem C12_lookup : forall st p n, ns_lookup st p n <> None <-> in_namespace st p n = true.
+Proof. exact lookup_visible. Qed.
+Print Assumptions C12_lookup.
+
+(** what a visible name denotes: cells, then own references, then the special
+    names, then the model's references, then child spaces *)
+Theorem C12_lookup_kinds : forall st p n,
+  (ns_lookup st p n = Some KCells <-> has_cells st p n = true)
+  /\ (ns_lookup st p n = Some KOwnRef <-> has_cells st p n = false /\ has_ref st p n = true)
+  /\ (ns_lookup st p n = Some KGlobalRef <->
+      has_cells st p n = false /\ has_ref st p n = false /\ mem_str n sys_names = false /\ has_gref st n = true)
+  /\ (ns_lookup st p n = Some KSpace <->
+      has_cells st p n = false /\ has_ref st p n = false /\ mem_str n sys_names = false /\ has_gref st n = false
+      /\ has_child st p n = true).
+Proof. exact lookup_kinds. Qed.
+Print Assumptions C12_lookup_kinds.
+
+(** space-level references take precedence over model-level ones: in a
+    reachable state an own reference (defined or derived) is what its name
+    denotes, whatever the model defines *)
+Theorem C12_own_ref_wins : forall h p n,
+  let st := run h in
+  has_space st p = true -> has_ref st p n = true -> ns_lookup st p n = Some KOwnRef.
+Proof. exact own_ref_wins. Qed.
+Print Assumptions C12_own_ref_wins.
+
+(** the same for an ItemSpace space[args]: dir() lists exactly the cells, the
+    parameters of the space, the special names, the references of the base
+    space (own, derived), the model's references and the child spaces *)
+Theorem C12_item_visible : forall st p n, In n (item_dir_names st p) <-> item_in_namespace st p n = true.
+Proof. exact item_visible_names. Qed.
+Print Assumptions C12_item_visible.
+
+Theorem C12_item_lookup : forall st p n, item_lookup st p n <> None <-> item_in_namespace st p n = true.
+Proof. exact item_lookup_visible. Qed.
+Print Assumptions C12_item_lookup.
+
+(** a parameter takes precedence over every reference of that name (only a cells hides it) *)
+Theorem C12_item_param_wins : forall st p n,
+  has_cells st p n = false -> mem_str n (params_of st p) = true -> item_lookup st p n = Some KParam.
+Proof. exact item_param_wins. Qed.
+Print Assumptions C12_item_param_wins.
